@@ -318,6 +318,28 @@ def run(ck):
                     tol = max(TOL_QCD[i - 1] if j == 0 else TOL_QED[(i, j)], LIM_FLOOR)
                     R.check("number_qed", f"C25/qed/number/ns{mode}/as{i}aem{j}", ("qed", "ns", nf, mode, (i, j)), lim[i, j], sc, tol, dict(nf=nf, mode=mode, order=(i, j), limit=lim[i, j]))
 
+    # ---- in-house N3LO variant inside the QED towers (only the (4,0) entries depend on the variant)
+    sc_q4h = natural_size(lambda n, nf: us.gamma_singlet_qed((4, 2), n, nf, V0, False)[4, 0], NFS, Ns=(2.0,))
+    sc_v4h = natural_size(lambda n, nf: us.gamma_valence_qed((4, 2), n, nf, V0, False)[4, 0], NFS)
+    sc_n4h = {mode: natural_size(lambda n, nf, mode=mode: us.gamma_ns_qed((4, 2), mode, n, nf, V0, False)[4, 0], NFS) for mode in (10202, 10203)}
+    for nf in NFS:
+        blk = us.gamma_singlet_qed((4, 2), two, nf, V0, False)[4, 0]
+        for col in range(4):
+            if not np.any(sc_q4h[:3, col]):
+                ck.case(("qed", "momentum", nf, (4, 0), col, "inhouse", "empty"), nontrivial=False)
+                ck.ok()
+                continue
+            R.check("momentum_qed", f"C25/qed/momentum/as4aem0/inhouse/col{col}", ("qed", "momentum", nf, (4, 0), col, "inhouse"), blk[:3, col].sum(), sc_q4h[:3, col].sum(), 1e-7, dict(nf=nf, order=(4, 0), column=blk[:, col], variant="inhouse"))
+        fv = lambda n: us.gamma_valence_qed((4, 2), n, nf, V0, False)[4, 0]
+        lim, spread = limit_at_one(fv)
+        for a in range(2):
+            for b in range(2):
+                R.check("number_qed", "C25/qed/number/valence/as4aem0/inhouse", ("qed", "valence", nf, (4, 0), a, b, "limit", "inhouse"), lim[a, b], sc_v4h.max(), max(1e-5, LIM_FLOOR), dict(nf=nf, order=(4, 0), entry=(a, b), value=lim[a, b], variant="inhouse"))
+        for mode in (10202, 10203):
+            fn = lambda n, mode=mode: us.gamma_ns_qed((4, 2), mode, n, nf, V0, False)[4, 0]
+            lim, spread = limit_at_one(fn)
+            R.check("number_qed", f"C25/qed/number/ns{mode}/as4aem0/inhouse", ("qed", "ns", nf, mode, (4, 0), "inhouse"), lim, sc_n4h[mode], max(1e-6, LIM_FLOOR), dict(nf=nf, mode=mode, order=(4, 0), limit=lim, variant="inhouse"))
+
     # ------------------------------------------------------------ central = mean(up, down)
     rng = ck.rng
     pts = [complex(n) for n in (2, 3, 4, 6, 8, 12)] + [complex(rng.uniform(0.6, 30), rng.uniform(-40, 40)) for _ in range(ck.n(20, 300))]
